@@ -13,7 +13,8 @@ RULE = ("a case is a namespace tree on disk (1-4 root directories, nesting depth
         "name, files that are no definitions) plus read_namespace / read_files calls (target subsets of 1-5 files, with repetitions) "
         "and calls whose directory sets are nested, equal, or equal in name up to case with allow_root_namespace_name_collision "
         "both ways; every call is repeated with 2-3 equivalent spellings of the directory arguments (relative, '..', '.', through a "
-        "symbolic link, str / Path, permuted, duplicated) and the whole case under 4 values of PYTHONHASHSEED each with its own seeded "
+        "symbolic link, str / Path, permuted, duplicated; for read_files also directories and target files spelled differently: root "
+        "through a symbolic link with real target paths and the converse) and the whole case under 4 values of PYTHONHASHSEED each with its own seeded "
         "shuffle of Path.rglob results; non-trivial = some call returns >= 2 types or is rejected because of the directory set; "
         "distinct = by hash of the canonical case")
 THEOREMS_NOTE = ("C10_complete / C10_files / C10_files_api fix the returned sets (direct = requested, transitive = rest of the closure, disjoint, "
@@ -24,7 +25,8 @@ TRUSTED = ["Path.resolve, symbolic links, Path.rglob and the iteration order of 
            "(4 hash seeds x shuffled rglob, equivalent spellings must give identical observations)",
            "names are ASCII in every generated case"]
 ASSUMPTIONS = ["bodies are sealed structures made of composite fields, uintN fields, @print and @assert false",
-               "target files of read_files are passed as absolute paths; only the directory arguments are re-spelled"]
+               "target files of read_files are absolute paths (real, with '..' or through a symbolic link, also spelled differently "
+               "from the directory arguments); relative target paths are not used (they are welded onto root.parent by design)"]
 EXPLANATION = ("theorems quantify over all file lists, orders of enumeration and directory argument lists of the model; the correspondence "
                "compares the ordered lists of (file, name, version, nested types) or the rejection with the model's value")
 LEVEL_TEXT = ("Machine-checked theorems (Coq, closed under the global context) about a Gallina model of read_namespace / read_files "
@@ -108,6 +110,11 @@ def gen_case(rng, tier):
         qs.append({"k": "files", "targets": [t], "roots": [list(tr)], "lookups": [list(r) for r in roots if r != tr]})
     for q in qs:
         q["variants"] = gen_variants(rng, rng.choice([2, 2, 3]))
+        if q["k"] == "files":
+            # directories and target files spelled differently: root through a symbolic link with the targets by their real
+            # paths, and the converse; '..' against real
+            a, b = rng.choice([("link", "abs"), ("link", "abs"), ("abs", "link"), ("abs", "link"), ("dotdot", "abs"), ("link", "dotdot")])
+            q["variants"].append({"how": a, "how_targets": b, "perm": rng.randrange(1 << 30), "dup": rng.random() < 0.3, "as_path": rng.random() < 0.5})
     return {"files": defs, "queries": qs, "flavor": flavor, "dirs": dirs}
 
 
@@ -125,6 +132,9 @@ def corpus():
           {"k": "ns", "root": ns, "lookups": [["a"]], "allow": True}, {"k": "ns", "root": ns, "lookups": [ns, ns], "allow": False}]
     for q in qs:
         q["variants"] = [{"how": h, "perm": 3, "dup": True, "as_path": h == "link"} for h in ("rel", "dotdot", "link")]
+        if q["k"] == "files":
+            q["variants"] += [{"how": "link", "how_targets": "abs", "perm": 1, "dup": False, "as_path": True},
+                              {"how": "abs", "how_targets": "link", "perm": 1, "dup": False, "as_path": False}]
     # F5b: two files, one name and version, equal texts
     tw = [B.mkfile(0, ns, "A", 1, 0, [["plain", 8]]), B.mkfile(1, ns, "A", 1, 0, [["plain", 8]], port=7000), B.mkfile(2, ns, "B", 1, 0, [])]
     return [{"files": fs, "queries": qs, "flavor": "corpus", "dirs": [ns, lk]},
@@ -279,7 +289,7 @@ def describe(case, obs):
         else:
             keys.append("%s:err:%s" % (q["k"], o["err"]))
         for v in q.get("variants", []):
-            keys.append("spelling:" + v["how"])
+            keys.append("spelling:" + v["how"] + ("/targets:" + v["how_targets"] if v.get("how_targets") else ""))
     if obs.get("pred_fail"):
         keys.append("pred_fail:" + obs["pred_fail"].split(":")[1].strip()[:12])
     return keys
